@@ -1,6 +1,7 @@
 (* C01 - Write then read returns the same packet, field for field. *)
 From MQ Require Import Model.Stream Model.Api Proofs.BytesP Proofs.VbP Proofs.WireP Proofs.StreamP Proofs.EncP
-     Proofs.FrameP Proofs.DispatchP Proofs.PropsP Proofs.RoundP Proofs.DomP Model.AccIR Proofs.AccP gen.GenAcc gen.SyncAcc.
+     Proofs.FrameP Proofs.DispatchP Proofs.PropsP Proofs.RoundP Proofs.DomP Model.AccIR Proofs.AccP gen.GenAcc gen.SyncAcc
+     Model.WireIR Model.WireDecIR Proofs.FillP Proofs.WireRoundP gen.GenWire gen.SyncWire gen.GenWireDec gen.SyncWireDec.
 From Coq Require Import String.
 
 (* Proved: (1) every wire type round-trips over an arbitrary suffix, for
@@ -171,3 +172,28 @@ Theorem C01_snapshot_is_the_accessors :
   forall k p, snapshot k p = map (fun name => eval_named name p) (snapshot_names k).
 Proof. exact (conj sync_acc_table snapshot_by_accessors). Qed.
 Print Assumptions C01_snapshot_is_the_accessors.
+
+(* The wire-level round trips (1) said of the source as it stands: for a wire
+   type whose model encoder/decoder round-trip over any suffix (they do for
+   every value inside MQTT's limits: second half), the statement list
+   regenerated from T.fill, run on a buffer with room at position i, writes
+   bytes from which the statement list regenerated from T.UnmarshalBinary -
+   run on the buffer from position i on, as buffer.get hands it over - reads
+   the value back. *)
+Theorem C01_wire_roundtrip_is_the_source :
+  g_wire_progs = wire_progs /\ g_wire_dec_progs = wire_dec_progs /\
+  (forall w v id buf i old v',
+     (forall rest, decode w old (Wire.encode w v ++ rest) = Ok v') ->
+     (i + List.length (Wire.encode w v) <= List.length buf)%nat ->
+     exists b', run_fill (prog_fill w) (env_of w v id) buf i = Some (b', List.length (Wire.encode w v)) /\
+                lift (value_of w) (run_wdec (dprog_of w) (wv_of w old) (skipn i b')) = Ok v') /\
+  ((forall n old rest, (n < 256)%N -> decode U8 old (Wire.encode U8 (VN n) ++ rest) = Ok (VN n)) /\
+   (forall n old rest, (n < 65536)%N -> decode U16 old (Wire.encode U16 (VN n) ++ rest) = Ok (VN n)) /\
+   (forall n old rest, (n < 4294967296)%N -> decode U32 old (Wire.encode U32 (VN n) ++ rest) = Ok (VN n)) /\
+   (forall b old rest, decode WBool old (Wire.encode WBool (VB b) ++ rest) = Ok (VB b)) /\
+   (forall s old rest, (len s < 65536)%N -> s <> [] -> decode Bin old (Wire.encode Bin (VS s) ++ rest) = Ok (VS s)) /\
+   (forall n old rest, (n < 268435456)%N -> decode Vb old (Wire.encode Vb (VN n) ++ rest) = Ok (VN n))).
+Proof.
+  exact (conj sync_wire_progs (conj sync_wire_dec_progs (conj wire_roundtrip_progs wire_roundtrip_premises))).
+Qed.
+Print Assumptions C01_wire_roundtrip_is_the_source.
